@@ -53,7 +53,7 @@ TABLE = [
     (r'^v5::handshake::HandshakeAck::<St>::keep_alive$', 'panic-call', r'^assert!$', 'API-PRECONDITION', 'documented: panics if timeout is 0 (application value)', 1),
     (r'^v5::sink::MqttSink::(subscribe|unsubscribe)$', 'unwrap', r'.*', 'PROVEN', 'NonZeroU16::new(1).unwrap() on a literal', 1),
     (r'^v5::sink::PublishReceived::(properties|reason)$', 'unwrap', r'^unwrap\(arg1\.result\)$', 'ASSUMED', 'result is Some from construction until release(self)/drop consume the value (builder methods take self by value)', 1),
-    (r'^v[35]::sink::PublishReceived::release::\{closure#0\}$', 'unwrap', r'^unwrap\(take\(\)\)$', 'ASSUMED', 'release(self) consumes the receipt: the Option is Some from construction and taken exactly here or in Drop', 1),
+    (r'^v[35]::sink::PublishReceived::release::\{closure#0\}$', 'unwrap', r'^unwrap\((take\(\)|\?)\)$', 'ASSUMED', 'release(self) consumes the receipt: the Option is Some from construction and taken exactly here or in Drop', 1),
     (r'^v3::(client::)?dispatcher::Inner::<C>::control::\{closure#0\}$', 'panic-call', r'^unreachable!$', 'API-PRECONDITION',
      'the answer kind comes from the application control service; each control message only offers ack() constructors of its own kind (a mismatching kind needs an ack smuggled from another connection role)', 1),
     (r'^v[35]::control::(SubscribeIter|UnsubscribeIter)::<\'a>::next_unsafe$', 'index|assert', r'.*', 'ASSUMED',
